@@ -70,10 +70,15 @@ package lexer
 //@   ensures[C04,line-break-restarts-the-line-after-it] result ==> nlb(l.chunk[old(deref(i))]) && l.lineStartPos == l.currentPos + deref(i) && nlb(l.chunk[deref(i) - 1])
 //@   ensures[C04,no-effect-otherwise] !result ==> l.line == old(l.line) && l.lineStartPos == old(l.lineStartPos)
 //@   ensures[C04,position-counter-untouched] l.currentPos == old(l.currentPos)
+//@   ensures[C04,a-counted-line-break-is-one-line] (result ==> l.line == old(l.line) + 1)
+//@        && (nlb(l.chunk[old(deref(i))]) && old(deref(i)) + 1 < len(l.chunk) ==> result)
 //@ end
 
+// a backslash followed by a line break - LF, CR or CRLF - continues the string on the next line: the break is
+// counted as exactly one line (unless the text ends there, which is reported as an unfinished string)
 //@ func (*Lexer).readEscapeSequence
 //@   props C04
+//@   ensures[C04,escaped-line-break-counts-one-line] old(deref(i)) + 1 < len(l.chunk) && nlb(l.chunk[old(deref(i))]) ==> l.line == old(l.line) + 1
 //@   ensures[C04,line-start-moves-only-at-a-line-break] l.currentPos == old(l.currentPos)
 //@        && (forall(k, old(deref(i)), deref(i), !nlb(l.chunk[k])) ==> l.line == old(l.line) && l.lineStartPos == old(l.lineStartPos))
 //@   loop 0 invariant [C04] l.currentPos == old(l.currentPos) && l.chunk == old(l.chunk) && deref(i) >= old(deref(i)) && deref(i) <= len(l.chunk)
